@@ -91,6 +91,41 @@ def hmmDetMayReuse (ctx : Ctx) (o : HmmOpts) (j : J) : Bool :=
 def sideloadMayReuse (ctx : Ctx) (j : J) : Bool :=
   intField j "schema_version" == some 1 && strField j "record_id" == some ctx.recordId
 
+mutual
+/-- equality of JSON trees -/
+def jsonEq : J → J → Bool
+  | .null, .null => true
+  | .bool a, .bool b => a == b
+  | .int a, .int b => a == b
+  | .num a, .num b => a == b
+  | .str a, .str b => a == b
+  | .arr a, .arr b => jsonEqList a b
+  | .obj a, .obj b => jsonEqFields a b
+  | _, _ => false
+def jsonEqList : List J → List J → Bool
+  | [], [] => true
+  | x :: xs, y :: ys => jsonEq x y && jsonEqList xs ys
+  | _, _ => false
+def jsonEqFields : List (String × J) → List (String × J) → Bool
+  | [], [] => true
+  | (k, x) :: xs, (k', y) :: ys => k == k' && jsonEq x y && jsonEqFields xs ys
+  | _, _ => false
+end
+
+/-- sideloading requested for the current run as well (`requested` = what the current `--sideload*`
+    options load for this record): the stored annotation arrays must be exactly what these
+    annotations save to.  No request → nothing to compare. -/
+def sideloadSameRequest (requested : Option Sideloaded) (j : J) : Bool :=
+  match requested with
+  | none => true
+  | some r =>
+    (match field j "subregions" with
+     | some sj => jsonEq sj (.arr (r.subregions.map SubAnn.toJson))
+     | none => false)
+    && (match field j "protoclusters" with
+        | some pj => jsonEq pj (.arr (r.protoclusters.map ProtoAnn.toJson))
+        | none => false)
+
 /-- HMMer-based results: schema 2, same record, and the stored thresholds are not stricter than
     the current ones (so that the current hit set is a subset of the stored one) -/
 def hmmerMayReuse (ctx : Ctx) (maxEvalue minScore : Dec) (j : J) : Bool :=
@@ -112,6 +147,16 @@ def ttaReference (gc opt : Dec) (all : List Loc) : List Loc :=
 /-- hits a stored hit list contributes under thresholds `maxEvalue`, `minScore` -/
 def hmmerReference (hits : List HmmerHit) (maxEvalue minScore : Dec) : List HmmerHit :=
   hits.filter fun h => Dec.le minScore h.score && Dec.le h.evalue maxEvalue
+
+/-- hits a *fresh* run under thresholds `maxEvalue`, `minScore` reports (`hmmer.build_hits`: both
+    thresholds are exclusive) -/
+def hmmerFresh (hits : List HmmerHit) (maxEvalue minScore : Dec) : List HmmerHit :=
+  hits.filter fun h => Dec.lt minScore h.score && Dec.lt h.evalue maxEvalue
+
+/-- known-finding class KF-C11-refilter-boundary: some stored hit lies exactly on a current threshold -/
+def hmmerOnBoundary (hits : List HmmerHit) (maxEvalue minScore : Dec) : Bool :=
+  hits.any fun h => (Dec.le h.score minScore && Dec.le minScore h.score)
+                    || (Dec.le h.evalue maxEvalue && Dec.le maxEvalue h.evalue)
 
 /-! #### main.run_module: reuse iff regenerated, run iff enabled -/
 
